@@ -23,6 +23,8 @@ LATE = {
  "C18-C": "scene with two contacts of different friction coefficients",
  "C18-D": "falling-bar tip scene (contact set unchanged while the normal directions turn); the earlier, accidental detection through a harness error was removed (Appendix F)",
  "C20-C": "large initial times (`BigT0`)",
+ "C23-C": "(scenario added on reading the change, before the first run) hard runs that stop early: the rows they return are judged",
+ "C23-D": "(scenario added on reading the change, before the first run) the arc-length solver on a span that does not start at zero",
  "C26-D": "second rigid-body pool whose quaternions are scaled by 2.0 (same orientation, different coordinates)",
  "C27-C": "NaN-safe comparisons (`not (err <= tol)`, `isfinite`)",
  "C28-D": "every third case imports a second time with the same dictionaries and compares",
